@@ -220,6 +220,8 @@ def main(tier):
             raise vlib.Inconclusive("TraceC19: TLC visited %d states, expected %d\n%s" % (res.distinct, len(lines) + 1, res.out[-2000:]))
         run.cov["traces_validated_against_impl"] += len(lines) - len(bad)
         run.add_model(res)
+        from cryptocommon import binding_selftest
+        binding_selftest(run, wd, "TraceC19", trace, 3400)
         diffs = {}
         # TLC wraps long values over several lines: read the tuples from the raw output
         for m in re.finditer(r'<<\s*"SWEEPDIFF",\s*(\d+),\s*\{([^}]*)\},\s*\{([^}]*)\}\s*>>', res.out):
